@@ -4,12 +4,14 @@
    of the layer's gates to the qubits they name, identity elsewhere — for every number of qubits,
    every gate arity and every assignment of qubits to gates (adjacent or not, in any order).
    This is the statement about BmMatrixFromOperation as repaired by e051db6 (localOrder holds
-   positions); the code before the repair is refuted below.  The remaining step to the property's
-   wording — that the simultaneous application equals applying the gates one after the other, and
-   that the product of the layers is therefore the circuit's unitary — is checked exactly (in
-   Z[1/2][zeta8]) on every generated circuit but not proved in general (partial). *)
+   positions); the code before the repair is refuted below.  Over any commutative semiring it is
+   further proved that the simultaneous application equals applying the gates one after the other
+   (matrix products being associative) and hence that the product of the emitted matrices, later
+   layers multiplying from the left, is the circuit's unitary: the gates embedded on the qubits they
+   name, multiplied in program order.  Unitarity of each emitted matrix and the software simulation
+   are compared numerically on every generated circuit, not proved. *)
 From Coq Require Import List Arith Bool ZArith.
-From BM Require Import Front.Quantum Front.Cyclo8 Front.QuantumCheck Proofs.QuantumProofs Proofs.QuantumPlace Proofs.QuantumLayer.
+From BM Require Import Front.Quantum Front.Cyclo8 Front.QuantumCheck Proofs.QuantumProofs Proofs.QuantumPlace Proofs.QuantumLayer Proofs.QuantumSeq.
 Import ListNotations.
 
 Theorem compiled_layer_is_the_simultaneous_application_of_its_gates :
@@ -37,6 +39,28 @@ Theorem circuit_compiles_layer_by_layer :
             ms (circuit_layers K c).
 Proof. intros K k0 k1 kmul H1 H2 H3 H4 H5 H6 n c Hn Hwf. eapply circuit_compiles; eauto. Qed.
 Print Assumptions circuit_compiles_layer_by_layer.
+
+(* the property's wording: the emitted matrices multiply to the unitary defined by applying each gate
+   to the named qubits in program order *)
+Theorem product_of_the_emitted_matrices_is_the_circuit_unitary :
+  forall (K : Type) (k0 k1 : K) (kadd kmul : K -> K -> K),
+  (forall a, kadd k0 a = a) -> (forall a, kadd a k0 = a) ->
+  (forall a b c, kadd a (kadd b c) = kadd (kadd a b) c) -> (forall a b, kadd a b = kadd b a) ->
+  (forall a, kmul k1 a = a) -> (forall a, kmul a k1 = a) ->
+  (forall a, kmul k0 a = k0) -> (forall a, kmul a k0 = k0) ->
+  (forall a b c, kmul a (kmul b c) = kmul (kmul a b) c) -> (forall a b, kmul a b = kmul b a) ->
+  (forall a b c, kmul a (kadd b c) = kadd (kmul a b) (kmul a c)) ->
+  forall (n : nat) (c : list (qop K)), 0 < n -> Forall (fun o => op_wf K n o = true) c ->
+  exists ms, compile K k0 k1 kmul n c = Some ms /\
+    nq (prod_left K k0 k1 kadd kmul n ms) = n /\
+    forall i j, length i = n -> length j = n ->
+      ent (prod_left K k0 k1 kadd kmul n ms) i j = ent (u_ref K k0 k1 kadd kmul n c) i j.
+Proof.
+  intros K k0 k1 kadd kmul A1 A2 A3 A4 M1 M2 M3 M4 M5 M6 D n c Hn Hwf.
+  destruct (compiled_circuit_is_the_unitary K k0 k1 kadd kmul A1 A2 A3 A4 M1 M2 M3 M4 M5 M6 D n c Hn Hwf) as [ms [Hc [H1 [_ H3]]]].
+  exists ms. auto.
+Qed.
+Print Assumptions product_of_the_emitted_matrices_is_the_circuit_unitary.
 
 (* layering loses nothing and keeps the order *)
 Theorem layering_keeps_every_line : forall K (c : list (qop K)),
@@ -74,3 +98,13 @@ Example layer_before_the_repair_refuted :
   | Ok M => mat_eqb 4 M (par_ref c8 c8_0 c8_1 c8_mul 4 ops) = false
   | Panic _ => True end.
 Proof. vm_compute. auto. Qed.
+
+(* the same over the integers for a circuit of two layers (the third line reuses qubit 2) *)
+Example a_two_layer_circuit :
+  let c := [mkOp [2; 0] zgate2; mkOp [1] zgate1; mkOp [2] zgate1] in
+  Forall (fun o => op_wf Z 3 o = true) c /\ length (circuit_layers Z c) = 2 /\
+  match compile Z 0%Z 1%Z Z.mul 3 c with
+  | Some ms => ent (prod_left Z 0%Z 1%Z Z.add Z.mul 3 ms) [false; true; true] [false; false; false] = 1%Z /\
+               ent (u_ref Z 0%Z 1%Z Z.add Z.mul 3 c) [false; true; true] [false; false; false] = 1%Z
+  | None => False end.
+Proof. split; [repeat constructor|]. vm_compute. auto. Qed.
